@@ -1,7 +1,10 @@
 """C38 - Distinct engines never share an engine id.
 
 Injectivity of the real `Aggregator.create_engine_id` over enumerated and generated (computer name, UOD name) pairs,
-and take-over attempts against a connected engine through the real registration handler. See DESIGN.md C38."""
+take-over attempts against a connected engine through the real registration handler, and connection histories
+(register / connect / disconnect / reconnect without registering / register again) in which every registration that
+resolves to an id with a live connection must be refused whatever else the aggregator knows about that id.
+See DESIGN.md C38."""
 from __future__ import annotations
 
 import itertools
@@ -22,8 +25,19 @@ RULE = ("(1) exhaustive: all 400 x 400 (computer, uod) pairs of strings of lengt
         "handle_RegisterEngineMsg on a real Aggregator/AggregatorDispatcher: P1 registers and connects (mock rpc "
         "channel), then P2 registers, P2 in {same pair, a different pair with the same id (if one exists), a pair "
         "with another id}; while P1 is connected a registration that resolves to P1's id must be answered "
-        "success=False and must leave P1's engine data untouched. distinct = the pair / the group / the scenario; "
-        "non-trivial = a name contains a separator or URL-special character, resp. the scenario hits a connected id")
+        "success=False and must leave P1's engine data untouched; (4) connection histories for one engine id X over "
+        "the events {register by the owner pair, register by another pair (another split with the same id if one "
+        "exists, else another id), open a websocket that reports X (no registration needed: the dispatcher attaches a "
+        "channel to whatever id get_engine_id_async returns), close the live websocket}: ALL histories of length <= 6 "
+        "(quick) / <= 7 (thorough) for two name configurations, plus seeded histories of length 6-14 with generated "
+        "names (60 % start with register, connect, ..., disconnect, connect) and two more events (close a websocket that was turned away as a second connection, register a pair "
+        "with an unrelated id); the harness keeps its own model 'a channel for X was accepted and not closed since'; "
+        "every registration resolving to X while the model says live must be answered success=False and must leave "
+        "engine data stored under X untouched - in both reachable sub-states (engine data present / absent, the "
+        "latter after drop + reconnect without a new registration or after a connect that was never preceded by a "
+        "registration). distinct = the pair / the group / the scenario / the history; "
+        "non-trivial = a name contains a separator or URL-special character, resp. the scenario or history contains "
+        "a registration that hits a connected id")
 ASSUMPTIONS = [
     "'engine id' is what create_engine_id returns and what RegisterEngineReplyMsg.engine_id carries (checked equal "
     "in every scenario)",
@@ -31,9 +45,19 @@ ASSUMPTIONS = [
     "registration between P1's register POST and its websocket connect is not judged (counted)",
     "the empty string is a legal name for the purpose of the enumeration (length 0-3)",
     "trusted base: the mocked rpc channel, the scratch SQLite database",
+    "connection histories: 'live' is decided by the harness model (channel opened by the rig, not closed by the "
+    "dispatcher, not closed by the rig since), cross-checked against the dispatcher's channel map (a disagreement is "
+    "counted and the registration is not judged); how the connection came about (with or without a registration in "
+    "this aggregator life-time) does not matter to the refusal rule; registrations while no connection is live are "
+    "counted, not judged",
 ]
 REQUIRED = {"ids_computed": 150000, "takeover_attempts_on_connected_id": 300, "group_pairs_checked": 20000,
-            "scenario_id_matches_reply": 500}
+            "scenario_id_matches_reply": 500,
+            "histories_run": 5000, "hist_reg_live_with_engine_data": 2000, "hist_reg_live_without_engine_data": 2000,
+            "hist_reg_live_without_engine_data_after_reconnect": 600, "hist_reg_live_never_registered": 300,
+            "hist_reg_live_by_other_pair": 500, "hist_reconnects_without_register": 800,
+            "hist_reg_not_live_with_engine_data": 500, "hist_reg_not_live_without_engine_data": 500,
+            "hist_random_histories": 300}
 EXHAUSTIVE_ALL = False
 
 K_JOIN = "C38.underscore_join_collides"
@@ -45,13 +69,16 @@ def plan(tier, seed):
     shards = 16 if tier == "quick" else 32
     groups = 20000 if tier == "quick" else 300000
     scen = 3000 if tier == "quick" else 30000
+    hist_len = 6 if tier == "quick" else 7
+    hist_rand = 1200 if tier == "quick" else 30000
     out = []
     for i in range(shards):
         if i < N_EX:
             out.append({"seed": seed * 1000003 + i, "kind": "exhaustive", "part": i, "of": N_EX})
         else:
             k = shards - N_EX
-            out.append({"seed": seed * 1000003 + i, "kind": "random", "groups": groups // k, "scenarios": scen // k})
+            out.append({"seed": seed * 1000003 + i, "kind": "random", "groups": groups // k, "scenarios": scen // k,
+                        "hist_part": i - N_EX, "hist_of": k, "hist_len": hist_len, "hist_random": hist_rand // k})
     return out
 
 
@@ -236,6 +263,142 @@ async def check_scenario(rig, sc, res: Result):
     res.case(("scenario", p1, p2) if connected and hits else None, sample=sc)
 
 
+# ---------------------------------------------------------------------------------------------------------------------
+# connection histories
+
+H_CORE = ("reg_owner", "reg_other", "connect", "disconnect")
+H_WIDE = H_CORE + ("connect", "reg_owner", "disconnect_rejected", "reg_unrelated")
+H_CONFIGS = (
+    {"owner": ["a_b", "c"], "other": ["a", "b_c"]},                                # another split with the same id
+    {"owner": ["lab pc/01", "Pump&Filter?v=2"], "other": ["lab pc/02", "Pump&Filter?v=2"]},   # another id
+)
+K_TAKEOVER = "C38.takeover_of_connected_engine_accepted"
+K_TAKEOVER_NO_DATA = "C38.takeover_accepted_when_connected_id_has_no_engine_data"
+
+
+def enum_histories(max_len: int):
+    for ci in range(len(H_CONFIGS)):
+        for ln in range(1, max_len + 1):
+            for evs in itertools.product(H_CORE, repeat=ln):
+                yield {"kind": "history", "owner": H_CONFIGS[ci]["owner"], "other": H_CONFIGS[ci]["other"],
+                       "events": list(evs)}
+
+
+def gen_history(rnd: random.Random):
+    sc = gen_scenario(rnd)
+    evs = []
+    if rnd.random() < 0.6:
+        # the engine registers and connects, loses its websocket and re-opens it with the id it already has
+        evs = ["reg_owner", "connect"] + [rnd.choice(H_WIDE) for _ in range(rnd.randint(0, 2))] + ["disconnect", "connect"]
+    evs += [rnd.choice(H_WIDE) for _ in range(rnd.randint(6, 14) - len(evs))]
+    return {"kind": "history", "owner": sc["p1"], "other": sc["p2"], "events": evs, "random": True}
+
+
+async def check_history(rig, h, res: Result):
+    owner, other = tuple(h["owner"]), tuple(h["other"])
+    unrelated = (owner[0] + "#unrelated", owner[1])
+    X = rig.agg.create_engine_id(rig.register_msg(*owner))
+    pairs = {"reg_owner": owner, "reg_other": other, "reg_unrelated": unrelated}
+    live = None            # harness model: the channel accepted for X and not closed since
+    live_origin = None     # "registered" / "reconnect" / "never_registered"
+    rejected = []          # channels the dispatcher turned away (second connection for X)
+    x_registered_ever = False
+    x_data_since_registration = False     # a registration for X succeeded and X has not been dropped since
+    hit = False
+    res.count("histories_run")
+    if h.get("random"):
+        res.count("hist_random_histories")
+    for n, ev in enumerate(h["events"]):
+        if ev == "connect":
+            ch = await rig.connect(X)
+            closed = ch.close.await_count > 0
+            if live is None:
+                if closed:
+                    res.count("hist_connect_turned_away_while_not_live")          # not judged
+                else:
+                    live = ch
+                    if rig.agg.get_registered_engine_data(X) is not None:
+                        live_origin = "registered"
+                    elif x_registered_ever:
+                        live_origin = "reconnect"
+                        res.count("hist_reconnects_without_register")
+                    else:
+                        live_origin = "never_registered"
+                        res.count("hist_connects_never_registered")
+            else:
+                res.count("hist_second_connection_while_live")
+                if closed:
+                    rejected.append(ch)
+                else:
+                    res.count("hist_second_connection_not_closed")                # not judged
+        elif ev == "disconnect":
+            if live is not None:
+                await rig.disconnect_channel(live)
+                live = None
+                live_origin = None
+                res.count("hist_disconnects")
+        elif ev == "disconnect_rejected":
+            if rejected:
+                await rig.disconnect_channel(rejected.pop())
+                res.count("hist_rejected_channel_closed")
+        else:
+            pair = pairs[ev]
+            pid = rig.agg.create_engine_id(rig.register_msg(*pair))
+            ed_before = rig.agg.get_registered_engine_data(pid)
+            ident_before = None if ed_before is None else (ed_before.computer_name, ed_before.uod_name, ed_before.location)
+            model_live = pid == X and live is not None
+            map_live = rig.dispatcher._engine_id_channel_map.get(pid) is live if model_live else \
+                pid in rig.dispatcher._engine_id_channel_map
+            r = await rig.register(*pair)
+            if r.engine_id is not None and r.engine_id != pid:
+                res.violation(None, f"reply engine_id {r.engine_id!r} differs from create_engine_id {pid!r}", h)
+            if model_live != bool(map_live):
+                res.count("hist_model_and_channel_map_disagree")                  # not judged
+            elif model_live:
+                hit = True
+                state = "with_engine_data" if ed_before is not None else "without_engine_data"
+                res.count("hist_reg_live_" + state)
+                if ed_before is None:
+                    res.count("hist_reg_live_without_engine_data_after_reconnect" if live_origin == "reconnect" else
+                              "hist_reg_live_never_registered" if live_origin == "never_registered" else
+                              "hist_reg_live_without_engine_data_other")
+                if pair != owner:
+                    res.count("hist_reg_live_by_other_pair")
+                if r.success:
+                    res.violation(K_TAKEOVER if ed_before is not None else K_TAKEOVER_NO_DATA,
+                                  f"event {n} ({ev}): a websocket reporting engine id {X!r} is open (opened as "
+                                  f"{live_origin}; engine data for the id {'present' if ed_before is not None else 'absent'}"
+                                  f"); registration of {pair} resolved to that id and was answered success=True; "
+                                  f"history {h['events'][:n + 1]}", h)
+                ed_now = rig.agg.get_registered_engine_data(pid)
+                if ed_before is not None:
+                    ident_now = None if ed_now is None else (ed_now.computer_name, ed_now.uod_name, ed_now.location)
+                    if ed_now is not ed_before or ident_now != ident_before:
+                        res.violation("C38.engine_data_of_connected_engine_replaced",
+                                      f"event {n} ({ev}): engine data under the connected id {X!r} changed from "
+                                      f"{ident_before} to {ident_now}; history {h['events'][:n + 1]}", h)
+                elif ed_now is not None and not r.success:
+                    res.count("hist_engine_data_created_by_refused_registration")  # not judged
+            else:
+                res.count("hist_reg_not_live_" + ("with_engine_data" if ed_before is not None else "without_engine_data"))
+                res.count("hist_reg_not_live_accepted" if r.success else "hist_reg_not_live_refused")   # not judged
+            if pid == X and r.success:
+                x_registered_ever = True
+    # clean up: close every channel, drop engine data the way a disconnect would
+    if live is not None:
+        await rig.disconnect_channel(live)
+    for eid in list(rig.dispatcher._engine_id_channel_map.keys()):
+        await rig.disconnect_engine(eid)
+    for eid in list(rig.agg._engine_data_map.keys()):
+        with rig.database.create_scope():
+            rig.agg.from_engine.engine_disconnected(eid)
+    rig.scripts.clear()
+    rig.channels.clear()
+    await rig.settle(2)
+    res.case(("history", owner, other, tuple(h["events"])) if hit else None,
+             sample={k: h[k] for k in ("owner", "other", "events")})
+
+
 def run_random(spec, res: Result):
     from opv.rigs.frontend_rig import FrontendRig, run
     rig = FrontendRig()
@@ -246,6 +409,17 @@ def run_random(spec, res: Result):
             check_group(rig, gen_group(rnd), res)
         for _ in range(spec["scenarios"]):
             await check_scenario(rig, gen_scenario(rnd), res)
+        if spec.get("hist_of"):
+            for i, h in enumerate(enum_histories(spec["hist_len"])):
+                if i % spec["hist_of"] == spec["hist_part"]:
+                    await check_history(rig, h, res)
+            if spec["hist_part"] == 0:
+                res.exhaustive_parts.append(
+                    f"all connection histories of length 1-{spec['hist_len']} over {{register by the owner pair, register "
+                    f"by another pair, open a websocket reporting the id, close the live websocket}} for "
+                    f"{len(H_CONFIGS)} name configurations")
+            for _ in range(spec.get("hist_random", 0)):
+                await check_history(rig, gen_history(rnd), res)
         await rig.drain_tasks()
     try:
         run(main)
@@ -270,6 +444,8 @@ def replay(case):
     async def main():
         if case.get("kind") == "pairs":
             check_group(rig, ("replay", [tuple(p) for p in case["pairs"]]), res)
+        elif case.get("kind") == "history":
+            await check_history(rig, case, res)
         else:
             await check_scenario(rig, case, res)
         await rig.drain_tasks()
